@@ -1,5 +1,6 @@
 import AsyncsshModel.Model.ChannelSys
 import AsyncsshModel.Model.ChannelCodec
+import AsyncsshModel.Model.ChannelText
 /- Line-protocol driver for the C07 / C08 correspondence (see harness/props/_channel_lib.py).
 
    reset
@@ -8,9 +9,15 @@ import AsyncsshModel.Model.ChannelCodec
    deliver <a|b>                       next message on the multiplexed link to that side
    raw <a|b> <i> data <dt|-> <hex> | adjust <n> | eof | close     a (hostile) peer's message arrives directly
    dec <hex> ...                       the UTF-8 decoder alone, one chunk per argument
+   tenc <codec> <cp.cp...|-> ...       one incremental encoder, one argument per write: bytes per write
+   tfresh <codec> <cp.cp...|-> ...     every write encoded on its own
+   tdec <codec> <hex|-> ...            one incremental decoder, one chunk per argument: text per chunk, then
+                                       `clean` / `pending` (would `decode(b'', True)` raise?)
+                                       codec = utf-8-sig | utf-16 | utf-32 | utf-16-le | utf-8
 
    side a = client (reads stderr, writes stdin only), side b = server. -/
 open AsyncsshModel AsyncsshModel.Channel AsyncsshModel.ChannelCodec
+open AsyncsshModel.ChannelText (TextCodec BomSt)
 
 structure D where
   m : MSys
@@ -99,6 +106,42 @@ def decChunks (st : St) : List Bytes → List String → List String
     | some (st', cps) =>
       decChunks st' rest (acc ++ [if cps.isEmpty then "-" else String.intercalate "." (cps.map toString)])
 
+def showCps (cps : List Nat) : String := if cps.isEmpty then "-" else String.intercalate "." (cps.map toString)
+def showNats (bs : List Nat) : String := if bs.isEmpty then "-" else hex (bs.map UInt8.ofNat)
+def parseCps (s : String) : Option (List Nat) := if s == "-" then some [] else (s.splitOn ".").mapM String.toNat?
+def parseChunk (s : String) : Option (List Nat) :=
+  if s == "-" then some [] else (unhex s).map (fun b => b.map UInt8.toNat)
+
+def tdecRun (t : TextCodec) (isInit : t.dec.σ → Bool) (st : BomSt t.dec.σ) : List (List Nat) → List String → List String
+  | [], acc =>
+    acc ++ [match st with
+            | .start k => if k == 0 then "clean" else "pending"
+            | .body s => if isInit s then "clean" else "pending"
+            | .bad _ => "pending"]
+  | c :: rest, acc =>
+    match ChannelText.run t.machine st c with
+    | none => acc ++ ["err"]
+    | some (st', cps) => tdecRun t isInit st' rest (acc ++ [showCps cps])
+
+def textOp (op codec : String) (args : List String) : String :=
+  let go (t : TextCodec) (isInit : t.dec.σ → Bool) : String :=
+    if op == "tdec" then
+      match args.mapM parseChunk with
+      | some cs => String.intercalate " " (tdecRun t isInit (BomSt.start 0) cs [])
+      | none => "bad-op"
+    else
+      match args.mapM parseCps with
+      | some ws =>
+        let outs := if op == "tenc" then ChannelText.encodeWrites t false ws else ws.map (ChannelText.encodeFresh t)
+        if outs.isEmpty then "-" else String.intercalate " " (outs.map showNats)
+      | none => "bad-op"
+  if codec == "utf-8-sig" then go ChannelText.utf8sig (fun (s : St) => decide (s = .s0))
+  else if codec == "utf-8" then go ChannelText.utf8 (fun (s : St) => decide (s = .s0))
+  else if codec == "utf-16" then go ChannelText.utf16 (fun (s : ChannelText.St16) => decide (s = .s0))
+  else if codec == "utf-16-le" then go ChannelText.utf16le (fun (s : ChannelText.St16) => decide (s = .s0))
+  else if codec == "utf-32" then go ChannelText.utf32 (fun (s : ChannelText.St32) => decide (s = .s0))
+  else "bad-op"
+
 def step (d : D) (ws : List String) : D × String :=
   match ws with
   | ["reset"] => (initD, "ok")
@@ -108,6 +151,9 @@ def step (d : D) (ws : List String) : D × String :=
       let outs := decChunks .s0 cs []
       (d, String.intercalate " " outs)
     | none => (d, "bad-op")
+  | "tenc" :: codec :: args => (d, textOp "tenc" codec args)
+  | "tfresh" :: codec :: args => (d, textOp "tfresh" codec args)
+  | "tdec" :: codec :: args => (d, textOp "tdec" codec args)
   | "enc" :: cps =>
     match cps.mapM String.toNat? with
     | some l => (d, hex (encStr l))
